@@ -1,5 +1,7 @@
 """C13 - The stored program matches the entered lines after any edit history."""
+import atexit
 import copy
+import os
 import re
 import struct
 
@@ -17,8 +19,11 @@ def session(mem):
     """One reusable Session per memory size (creating one costs 0.25 s); NEW resets the program."""
     s = _SESS.get(mem)
     if s is None:
-        s = common.new_session(max_memory=mem)
+        d = common.tmpdir('c13d')
+        atexit.register(common.rmtree, d)
+        s = common.new_session(max_memory=mem, devices={'C': d}, current_device='C:')
         s.execute(b'NEW')
+        s._c13_dir = d
         _SESS[mem] = s
     return s
 
@@ -114,7 +119,7 @@ class C13(core.Check):
     ID = 'C13'
     GEN = ['gen_program']
     PROPS = 'props/C13.v'
-    MODEL_IMPORTS = ['gen.Gen_program', 'model.Program']
+    MODEL_IMPORTS = ['gen.Gen_program', 'model.Program', 'model.Renum', 'model.Edit']
     QUICK_CASES = 170
     THOROUGH_CASES = 3000
     TRUSTED = ['hand model model/Program.v of program.py store_line/find_pos_line_dict/update_line_dict/delete/'
@@ -122,10 +127,12 @@ class C13(core.Check):
                'Sessions (bytecode, line_numbers, last_stored, LIST order, per-command error); token-length '
                'table regenerated (gen_program); tokenised line bytes come from the real tokeniser (C17) and '
                'are checked against wf_body on every case']
-    PARTIAL = ('RENUM is covered by C14 (WF preservation); LOAD is covered as rebuild_line_dict on the stored '
-               'image (identity on reachable states), MERGE = repeated store_line through the tokeniser (C17); '
-               'protected programs and AUTO are not modelled')
-    RULE = ('edit histories (store/replace/delete-by-empty-line/DELETE ranges/NEW/rebuild) of up to 200 ops '
+    PARTIAL = ('for histories with RENUM / SAVE+LOAD / MERGE the theorem is preservation of the invariant WF '
+               '(C13_ext_invariant: some reference map is represented) plus C13_save_load; which map results from '
+               'RENUM is C14, from MERGE it is a prefix of the file lines (only tested); protected programs, '
+               'CHAIN MERGE (= MERGE + DELETE range, both modelled) and AUTO/EDIT (= store_line) are not run through '
+               'the harness')
+    RULE = ('edit histories (store/replace/delete-by-empty-line/DELETE ranges/NEW/rebuild/RENUM accepted and rejected/SAVE+LOAD/MERGE of ASCII files; after every command the index is compared with a rescan) of up to 200 ops '
             '(thorough: 300) over line numbers 0..65529 with generated and special statement text, run through '
             'Session.execute; compared with the model on per-command error, bytecode, line_numbers, last_stored, '
             'LIST order; oracle = independent Python dict reference + layout/links/PEEK walk. non-trivial = at '
@@ -148,6 +155,10 @@ class C13(core.Check):
             # D13b: lines inserted before existing code bypassed the memory check
             {'mem': 5600, 'ops': [['S', n, 'REM ' + 'x' * 200] for n in (50, 40, 30, 20, 10)]},
             {'mem': 65534, 'ops': big},
+            # seed C13b: RENUM rejected half-way (second line would pass 65529) must leave code and index consistent
+            {'mem': 65534, 'ops': [['S', 10, 'GOTO 20'], ['S', 20, 'GOTO 10'], ['X', 65529, None, 1], ['S', 15, 'END']]},
+            {'mem': 65534, 'ops': [['S', 10, 'GOTO 20'], ['S', 20, 'END'], ['L'], ['S', 15, 'PRINT 1'], ['L'],
+                                   ['M', [[12, 'PRINT 2'], [30, ''], [40, 'END']]], ['X', 0, None, 1]]},
         ]
 
     def gen_ops(self, rng, nops):
@@ -191,8 +202,25 @@ class C13(core.Check):
                     ops.append(['D', a, None])
                 else:
                     ops.append(['D', None, None])
-            elif r < 0.97:
+            elif r < 0.945:
                 ops.append(['R'])
+            elif r < 0.965:
+                pool = [None, 0, 1, 10, 100, 1000, 65000, 65520, 65529] + have
+                ops.append(['X', rng.choice(pool), rng.choice([None, None] + have + [rng.randrange(65530)]),
+                            rng.choice([None, None, 1, 2, 10, 100, 1000, 0])])
+                have = []          # numbers change; later ops draw fresh ones
+            elif r < 0.975:
+                ops.append(['L'])
+            elif r < 0.985:
+                ls = []
+                for _ in range(rng.randrange(1, 6)):
+                    n = rng.choice(have + NUM_POOL) if rng.random() < 0.6 else 10 * rng.randrange(1, 40)
+                    t = '' if rng.random() < 0.1 else progen.line_body(rng, have or [10])
+                    t = t.replace('\x1a', ' ')
+                    ls.append([n, t])
+                    if n not in have:
+                        have.append(n)
+                ops.append(['M', ls])
             else:
                 ops.append(['N'])
                 have = []
@@ -200,7 +228,7 @@ class C13(core.Check):
 
     def gen_cases(self, n):
         rng = self.rng
-        hist = {'S': 0, 'S_empty': 0, 'D': 0, 'N': 0, 'R': 0, 'small_memory': 0}
+        hist = {'S': 0, 'S_empty': 0, 'D': 0, 'N': 0, 'R': 0, 'X': 0, 'L': 0, 'M': 0, 'small_memory': 0}
         out = []
         maxops = 300 if self.tier == 'thorough' else 200
         for i in range(n):
@@ -249,11 +277,38 @@ class C13(core.Check):
                         elif o[0] == 'N':
                             res['bufs'].append(None)
                             out = s.execute(b'NEW')
+                        elif o[0] == 'X':
+                            res['bufs'].append(None)
+                            a = [b'' if x is None else b'%d' % x for x in o[1:4]]
+                            cmd = b'RENUM ' + a[0]
+                            if o[2] is not None or o[3] is not None:
+                                cmd += b',' + a[1]
+                            if o[3] is not None:
+                                cmd += b',' + a[2]
+                            out = s.execute(cmd)
+                        elif o[0] == 'L':
+                            res['bufs'].append(None)
+                            out = s.execute(b'SAVE "T"')
+                            if not err_of(out):
+                                out = s.execute(b'LOAD "T"')
+                        elif o[0] == 'M':
+                            res['bufs'].append([tokenise(s, n, txt(t)) for n, t in o[1]])
+                            with open(os.path.join(s._c13_dir, 'M.BAS'), 'wb') as f:
+                                f.write(b''.join(b'%d %s\r\n' % (n, txt(t)) for n, t in o[1]))
+                            out = s.execute(b'MERGE "M"')
                         else:
                             res['bufs'].append(None)
                             p.rebuild_line_dict()
                             out = b''
                         res['status'].append(0 if not err_of(out) else 100 + err_of(out))
+                        # after ANY command, failed or not: the index equals a rescan of the code
+                        if 'broken_at' not in res:
+                            q = copy.copy(p)
+                            q.bytecode = copy.deepcopy(p.bytecode)
+                            q.line_numbers = dict(p.line_numbers)
+                            q.rebuild_line_dict()
+                            if (bytes(q.bytecode.getvalue()), q.line_numbers) != (bytes(p.bytecode.getvalue()), p.line_numbers):
+                                res['broken_at'] = len(res['status']) - 1
                     except Exception as e:           # host exception escaped from the interpreter
                         res['status'].append(200 + common.canon_exc(e)[1])
                         res['host'] = '%s: %s' % (type(e).__name__, e)
@@ -292,59 +347,115 @@ class C13(core.Check):
         bodies = []
         for o, buf in zip(case['ops'], r['bufs']):
             if o[0] == 'S':
-                ops.append('OStore %s' % zl_rle(buf))
+                ops.append('XBase (OStore %s)' % zl_rle(buf))
             elif o[0] == 'D':
-                ops.append('ODelete %s %s' % (opt(o[1]), opt(o[2])))
+                ops.append('XBase (ODelete %s %s)' % (opt(o[1]), opt(o[2])))
             elif o[0] == 'N':
-                ops.append('ONew')
+                ops.append('XBase ONew')
+            elif o[0] == 'X':
+                ops.append('XRenum %s %s %s' % (opt(o[1]), opt(o[2]), opt(o[3])))
+            elif o[0] == 'L':
+                ops.append('XSaveLoad')
+            elif o[0] == 'M':
+                ops.append('XMerge [%s]' % '; '.join(zl_rle(b) for b in buf))
             else:
-                ops.append('ORebuild')
-        return ('(trace {| cs := %d; limit := %d |} [%s])' % (r['cs'], r['limit'], '; '.join(ops)))
+                ops.append('XBase ORebuild')
+        return ('(xtrace {| cs := %d; limit := %d |} [%s])' % (r['cs'], r['limit'], '; '.join(ops)))
 
     # ---- property oracle: independent dict reference
     def reference(self, case, r):
-        ref = {}
+        """Independent dict reference: returns (lines or None when no longer determined, 1A bytes behind the
+        terminator, complaint)."""
+        ref, ntail = {}, 0
+
+        def store(n, body, st, what):
+            if body.strip(b' \t\n') == b'':
+                if n in ref:
+                    if st not in (0, None):
+                        return 'deleting existing line %d reported error %d' % (n, st - 100)
+                    del ref[n]
+                    return None
+                return 'stop108'
+            ref[n] = body
+            return None
+
         for o, buf, st in zip(case['ops'], r['bufs'], r['status']):
             if st >= 200:
                 break
             if o[0] == 'S':
                 body = bytes(bytearray(buf[5:]))
-                if body.strip(b' \t\n') == b'':
-                    if o[1] in ref:
-                        if st != 0:
-                            return None, 'deleting existing line %d reported error %d' % (o[1], st - 100)
-                        del ref[o[1]]
-                    elif st != 108:
-                        return None, 'deleting missing line %d: expected Undefined line number, got %d' % (o[1], st)
-                elif st == 107:
-                    pass            # Out of memory: program unchanged (size is checked below)
-                elif st != 0:
-                    return None, 'storing line %d reported error %d' % (o[1], st - 100)
-                else:
-                    ref[o[1]] = body
+                if st == 107:
+                    continue        # Out of memory: program unchanged (size is checked below)
+                blank = body.strip(b' \t\n') == b''
+                if blank and o[1] not in ref:
+                    if st != 108:
+                        return None, 0, 'deleting missing line %d: expected Undefined line number, got %d' % (o[1], st)
+                    continue
+                if st != 0:
+                    return None, 0, 'storing line %d reported error %d' % (o[1], st - 100)
+                store(o[1], body, st, 'S')
             elif o[0] == 'D':
                 lo = o[1] if o[1] is not None else 0
                 hi = o[2] if o[2] is not None else 65535
                 sel = [k for k in ref if lo <= k <= hi]
                 if not sel:
                     if st != 105:
-                        return None, 'DELETE of an empty range: expected Illegal function call, got %d' % st
+                        return None, 0, 'DELETE of an empty range: expected Illegal function call, got %d' % st
                 else:
                     if st != 0:
-                        return None, 'DELETE %s-%s reported error %d' % (o[1], o[2], st - 100)
+                        return None, 0, 'DELETE %s-%s reported error %d' % (o[1], o[2], st - 100)
                     for k in sel:
                         del ref[k]
             elif o[0] == 'N':
-                ref = {}
-        return ref, None
+                ref, ntail = {}, 0
+            elif o[0] == 'X':
+                from harness import C14 as c14
+                m = c14.C14.expected_map(sorted(ref), list(o[1:4]))
+                if m is None:
+                    if st != 105:
+                        return None, 0, 'RENUM %s must be rejected with Illegal function call, got %d' % (o[1:4], st)
+                    continue
+                if st != 0:
+                    return None, 0, 'RENUM %s must be accepted, got error %d' % (o[1:4], st - 100)
+                new = {}
+                for k, body in ref.items():
+                    b2 = bytearray(body)
+                    for off, jn, ex in c14.parse_refs(body):
+                        if not ex and jn in m:
+                            b2[off:off + 2] = struct.pack('<H', m[jn])
+                    new[m.get(k, k)] = bytes(b2)
+                ref = new
+            elif o[0] == 'L':
+                if st != 0:
+                    return None, 0, 'SAVE/LOAD reported error %d' % (st - 100)
+                ntail += 1
+            elif o[0] == 'M':
+                if st == 107:
+                    return None, ntail, None          # Out of memory somewhere in the file: not determined
+                stopped = False
+                for (n, _t), lb in zip(o[1], buf):
+                    if store(n, bytes(bytearray(lb[5:])), None, 'M') == 'stop108':
+                        stopped = True
+                        break
+                if st != (108 if stopped else 0):
+                    return None, 0, 'MERGE: expected status %d, got %d' % (108 if stopped else 0, st)
+        return ref, ntail, None
 
     def oracle(self, case, out):
         r = self._run(case)
         if r['host']:
             return 'host exception escaped: %s' % r['host']
-        ref, why = self.reference(case, r)
+        if 'broken_at' in r:
+            return ('after command %d (%s) the line index differs from a rescan of the code'
+                    % (r['broken_at'], case['ops'][r['broken_at']][0]))
+        ref, ntail, why = self.reference(case, r)
         if why:
             return why
+        if r['fre'] < 0:
+            return 'program of %d bytes exceeds program memory by %d bytes without Out of memory' % (
+                len(r['code']), -r['fre'])
+        if ref is None:
+            return None
         cs = r['cs']
         # expected memory image: 00 | link | num | body ... 00 00 00
         img = b''
@@ -354,7 +465,7 @@ class C13(core.Check):
             nxt = len(img) + 5 + len(ref[k])
             img += b'\0' + struct.pack('<H', cs + 1 + nxt) + struct.pack('<H', k) + ref[k]
         pos[65536] = len(img)
-        img += b'\0\0\0'
+        img += b'\0\0\0' + b'\x1a' * ntail
         if r['code'] != img:
             return 'program memory differs from the layout of the reference lines'
         if r['lines'] != pos:
